@@ -8,7 +8,8 @@
 
    Arithmetic:
    * mode-dependent checked ops (uadd/usub/umul/udiv m, f_div_round_up m) wherever a caller-supplied value
-     enters arithmetic (builder calls, query arguments), in the whole of RLBuilder, SampleIndex and decode;
+     enters arithmetic (builder calls, query arguments), in the whole of RLBuilder, SampleIndex and decode
+     (exception: the counts of code units / blocks in flush, which [data] really holds, are exact);
    * exact N in RunIter / the query loops for values derived from the samples and decoded runs:
      every such value is a position or a rank of the vector, bounded by len <= 2^64-1 (the position invariant
      of RunIter in Proofs/RLProof.v); subtractions there are between two such values whose order is given by
@@ -127,9 +128,11 @@ Definition rlb_flush (m : mode) (b : rlbuilder) : res rlbuilder :=
     let* len1 := usub m (snd (b_run b)) 1 in
     let* c1 := rl_code_len m gap in
     let* c2 := rl_code_len m len1 in
-    let* units_needed := uadd m c1 c2 in
-    let* have := uadd m (ilen (b_data b)) units_needed in
-    let* room := umul m (rlb_blocks b) rl_BLOCK_SIZE in
+    (* counts of code units / blocks: [data] really holds that many units, so they are bounded by real
+       memory and exact *)
+    let units_needed := c1 + c2 in
+    let have := ilen (b_data b) + units_needed in
+    let room := rlb_blocks b * rl_BLOCK_SIZE in
     let* (samples, data) :=
       if room <? have then
         let* d := iv_resize (b_data b) room 0 in
@@ -409,6 +412,9 @@ Definition oi_next (m : mode) (v : rlvec) (s : oneiter) : res (oneiter * option 
   else Ok (mkoi (oi_iter s1) (oi_got_none s1) (oi_rank s1 + 1),
            Some (oi_rank s1, ri_offset_for (oi_iter s1) (oi_rank s1))).
 Definition oi_size_hint (v : rlvec) (s : oneiter) : N := rl_ones v - oi_rank s.
+(* `.next()` on a freshly returned OneIter (what predecessor(v).next() / successor(v).next() evaluate to) *)
+Definition oi_first (m : mode) (v : rlvec) (it : res oneiter) : res (option (N * N)) :=
+  let* s := it in let* (_, r) := oi_next m v s in Ok r.
 
 (* ---- ZeroIter ---- *)
 Record zeroiter := mkzi { zi_iter : runiter; zi_got_none : bool; zi_pos : N * N }.
